@@ -209,6 +209,15 @@ def main(argv: Optional[List[str]] = None) -> int:
         print('no contracts for %s' % prop)
         return 3
     entry = cindex.PROPS[prop]
+    # encodings of Python semantics vs CPython, on every run: a disagreement aborts the check (no verdicts from a wrong model)
+    from pyvc import selftest
+
+    mism = selftest.run(seed)
+    if mism:
+        for mm in mism[:10]:
+            print('MODEL-MISMATCH ' + mm)
+        print('CHECKER-ERROR the encoding of Python semantics disagrees with CPython (%d cases): no verdict' % len(mism))
+        return 3
     ov = overlay.make_overlay()
     overlay.activate(ov)
     try:
@@ -429,7 +438,7 @@ def _write_evidence(prop: str, tier: str, seed: int, entry: Dict[str, Any], mods
                             'seconds': round(ob['seconds'], 4)})
     assumptions = list(COMMON_ASSUMPTIONS)
     not_decided: List[str] = []
-    trusted = ['pyvc symbolic executor (/verif/pyvc) and its encodings of Python semantics', 'z3 %s (in-process)' % _z3v(), 'external solvers: ' + ', '.join(solvers.available())]
+    trusted = ['pyvc symbolic executor (/verif/pyvc) and its encodings of Python semantics (cross-checked against CPython by pyvc/selftest.py on every run: int arithmetic incl. // and %, str/bytes slicing, find, partition, prefix/suffix, concatenation)', 'z3 %s (in-process)' % _z3v(), 'external solvers: ' + ', '.join(solvers.available())]
     for m in mods or []:
         assumptions.extend(getattr(m, 'ASSUMPTIONS', []))
         not_decided.extend(getattr(m, 'NOT_DECIDED', []))
